@@ -1119,6 +1119,10 @@ sc_io_decode (sc_array_t *data, sc_array_t *out,
   base64_lines = (encoded_size - 1 + SC_IO_LBD) / SC_IO_LBE;
   compressed_size = base64_lines * SC_IO_DBC;
   ipos = data->array;
+  if (encoded_size - 1 < 2 * base64_lines) {
+    SC_LERROR ("input too short to hold a line break\n");
+    return -1;
+  }
   SC_ASSERT (encoded_size >= base64_lines + 1);
   irem = encoded_size - 1 - 2 * base64_lines;
   sc_array_init_count (&compressed, 1, compressed_size);
